@@ -36,6 +36,10 @@ def disturb(ta, pre) -> None:
     their failures are ignored: the point is only that they ran, on the same loaded frames and symbol table."""
     import contextlib
     import io
+    if pre:
+        # what the trace is, is what was loaded: the adapters (model input, oracle) keep reading these rows even if an
+        # analysis below changes the object's frames in place; the observed call runs on the object as it is afterwards
+        ta.t._verif_rows_snapshot = {r: htaio.rows_of(ta.t, r) for r in ta.t.get_ranks()}
     for name in pre or []:
         try:
             with contextlib.redirect_stdout(io.StringIO()):
